@@ -27,8 +27,9 @@ VARIABLES l, cfg, th, cur, rts, names, viol, bad, stat
 tvars == <<l, cfg, th, cur, rts, names, viol, bad, stat>>
 
 NoCfg == [id |-> 0, bf |-> 2, nk |-> 0, nv |-> 0, kt |-> "", vt |-> "", nf |-> "", cache |-> "", layers |-> <<>>, src |-> ""]
-DeadT == [hr |-> Dead, model |-> <<>>, bmodel |-> <<>>, oh |-> 0]
-FreshT == [hr |-> Fresh, model |-> <<>>, bmodel |-> <<>>, oh |-> 0]
+DeadT == [hr |-> Dead, model |-> <<>>, bmodel |-> <<>>, oh |-> 0, taint |-> FALSE]
+FreshT == [hr |-> Fresh, model |-> <<>>, bmodel |-> <<>>, oh |-> 0, taint |-> FALSE]
+TaintedT == [hr |-> Fresh, model |-> <<>>, bmodel |-> <<>>, oh |-> 0, taint |-> TRUE]
 NoCur == [on |-> FALSE, valid |-> FALSE, ref |-> <<>>]
 Stat0 == [events |-> 0, traces |-> 0, ins |-> 0, upd |-> 0, noop |-> 0, del |-> 0, nodel |-> 0, get |-> 0, iter |-> 0,
           clone |-> 0, cursor |-> 0, cwalk |-> 0, root |-> 0, rootdirty |-> 0, load |-> 0, grow |-> 0, shrink |-> 0,
@@ -44,7 +45,7 @@ Bf == cfg.bf
 HiKey == cfg.nk + 1
 NfName == IF cfg.nf = "bin" THEN "v1.1.5binary" ELSE "v1marshaler"
 
-V(p, why, h) == [p |-> p, l |-> l, tr |-> cfg.id, why |-> why, h |-> h]
+V(p, why, h) == [p |-> p, l |-> l, tr |-> cfg.id, why |-> why, h |-> h, r |-> 0]
 Bump(s, f) == [s EXCEPT ![f] = @ + 1]
 
 ObsIdx(e, h) == {i \in DOMAIN e.obs : e.obs[i].h = h}
@@ -53,7 +54,7 @@ ObsOf(e, h) == e.obs[CHOOSE i \in ObsIdx(e, h) : TRUE]
 
 (* observation of every live handle after the step; actors = handles the call acted on *)
 ObsViol(t2, e, actors, pact) ==
-  UNION { IF ~t2[h].hr.live THEN {}
+  UNION { IF ~t2[h].hr.live \/ t2[h].taint THEN {}
           ELSE IF ~HasObs(e, h) THEN {V("C01", "live handle not observed", h)}
           ELSE LET o == ObsOf(e, h)
                    m == t2[h].model
@@ -71,7 +72,7 @@ RObsBad(ro, r) == ro.err # "" \/ ro.ents # SortedPairs(r.model) \/ ro.size # Car
 RObsViol(rs, e) ==
   UNION { LET ro == e.robs[i] IN
           IF \E r \in rs : r.id = ro.r /\ r.ok /\ RObsBad(ro, r)
-          THEN {V("C02", "retained root no longer loads to the contents it was persisted with", ro.r)} ELSE {}
+          THEN {[V("C02", "retained root no longer loads to the contents it was persisted with", 0) EXCEPT !.r = ro.r]} ELSE {}
         : i \in DOMAIN e.robs }
 
 Heights(t2, e) == [h \in HS |-> IF t2[h].hr.live /\ HasObs(e, h) THEN [t2[h] EXCEPT !.oh = ObsOf(e, h).height] ELSE t2[h]]
@@ -82,11 +83,17 @@ LoadsViol(e, bound, what) == IF e.dloads > bound THEN {V("C16", what, e.h)} ELSE
 FinishP(t2, cur2, rts2, names2, v, statf, pact) ==
   LET allv == v \cup ObsViol(t2, Ev, {Ev.h, Ev.g}, pact) \cup RObsViol(rts2, Ev)
               \* node objects in the shared cache stand for persisted (captured) nodes: none may change, whoever looks at it later
-              \cup (IF Ev.cachemut > 0 THEN {V("C02", "a node object handed to the shared node cache was modified afterwards", Ev.h)} ELSE {})
-  IN /\ th' = Heights(t2, Ev)
-     /\ cur' = cur2 /\ rts' = rts2 /\ names' = names2
+              \cup (IF Ev.cachemut > 0 THEN {V("C02", "a node object handed to the shared node cache was modified afterwards", 0)} ELSE {})
+      \* what no longer describes the implementation is not judged any further: the handles a violation names are tainted,
+      \* the retained roots it names are retired; every other handle and root of the history goes on being validated
+      th2 == Heights(t2, Ev)
+      hit == {x.h : x \in allv} \cap HS
+      badroots == {x.r : x \in allv}
+  IN /\ th' = [h \in HS |-> IF h \in hit THEN [th2[h] EXCEPT !.taint = TRUE] ELSE th2[h]]
+     /\ cur' = cur2 /\ names' = names2
+     /\ rts' = {IF x.id \in badroots THEN [x EXCEPT !.ok = FALSE] ELSE x : x \in rts2}
      /\ viol' = viol \cup allv
-     /\ bad' = (allv # {})
+     /\ bad' = FALSE
      /\ stat' = [Bump(Bump(statf, "events"), "obs") EXCEPT !.robs = @ + Len(Ev.robs)]
      /\ l' = l + 1 /\ UNCHANGED cfg
 
@@ -105,7 +112,16 @@ TSkip == /\ l <= Len(Trace) /\ Ev.op # "reset" /\ bad
          /\ stat' = Bump(stat, "skipped")
          /\ l' = l + 1 /\ UNCHANGED <<cfg, th, cur, rts, names, viol, bad>>
 
-Good(op) == Is(op) /\ ~bad
+ActsOnHandle == Ev.op \in {"ins", "del", "get", "iter", "size", "clone", "cursor", "root", "drop"}
+ActorTainted == ActsOnHandle /\ th[Ev.h].taint
+Good(op) == Is(op) /\ ~bad /\ ~ActorTainted
+
+(* a call on a handle that an earlier violation has tainted: not judged, only the bookkeeping of which slots are in use *)
+TTainted == /\ l <= Len(Trace) /\ Ev.op # "reset" /\ ~bad /\ ActorTainted
+            /\ LET th2 == IF Ev.op = "clone" /\ Ev.res = "ok" THEN [th EXCEPT ![Ev.g] = TaintedT]
+                          ELSE IF Ev.op = "drop" THEN [th EXCEPT ![Ev.h] = DeadT] ELSE th
+                   cur2 == IF Ev.op = "cursor" THEN [cur EXCEPT ![Ev.g] = NoCur] ELSE cur
+               IN Finish(th2, cur2, rts, names, {}, Bump(stat, "skipped"))
 
 TNew == /\ Good("new")
         /\ LET v == IF Ev.res # "ok" THEN {V("C01", "opening an empty tree fails", Ev.h)} ELSE {}
@@ -235,11 +251,11 @@ TRoot == /\ Good("root")
 
 TLoad == /\ Good("load")
          /\ IF ~HasRoot(Ev.r) \/ ~RootOf(Ev.r).ok
-            THEN \* the root was already reported (C05) at the time it was made: nothing more to learn from it
-                 /\ bad' = TRUE /\ l' = l + 1 /\ stat' = Bump(stat, "skipped")
-                 /\ UNCHANGED <<cfg, th, cur, rts, names, viol>>
+            THEN \* the root was already reported at the time it was made (or was made by a tainted handle): the tree loaded from
+                 \* it is not judged
+                 Finish(IF Ev.res = "ok" THEN [th EXCEPT ![Ev.g] = TaintedT] ELSE th, cur, rts, names, {}, Bump(stat, "skipped"))
             ELSE LET r == RootOf(Ev.r)
-                     t2 == [hr |-> DoLoad(r), model |-> r.model, bmodel |-> r.model, oh |-> r.height]
+                     t2 == [hr |-> DoLoad(r), model |-> r.model, bmodel |-> r.model, oh |-> r.height, taint |-> FALSE]
                      o == ObsOf(Ev, Ev.g)
                      viaCache == Ev.cached /\ cfg.cache # "none"
                      differs == HasObs(Ev, Ev.g) /\ (o.err # "" \/ o.ents # SortedPairs(r.model) \/ o.size # r.size \/ o.height # r.height)
@@ -257,13 +273,13 @@ TLoad == /\ Good("load")
 PairsToMap(ps) == [k \in {ps[i][1] : i \in DOMAIN ps} |-> ps[CHOOSE i \in DOMAIN ps : ps[i][1] = k][2]]
 TAdopt == /\ Good("adopt")
           /\ LET r == [root |-> Ev.link, height |-> Ev.rh, size |-> Ev.rs, model |-> PairsToMap(Ev.ents)]
-                 t2 == [hr |-> DoLoad(r), model |-> r.model, bmodel |-> r.model, oh |-> r.height]
+                 t2 == [hr |-> DoLoad(r), model |-> r.model, bmodel |-> r.model, oh |-> r.height, taint |-> FALSE]
              IN Finish([th EXCEPT ![Ev.h] = t2], cur, rts, names, {}, stat)
 
 TDrop == /\ Good("drop")
          /\ Finish([th EXCEPT ![Ev.h] = DeadT], cur, rts, names, {}, stat)
 
-TNext == TReset \/ TSkip \/ TNew \/ TIns \/ TDel \/ TGet \/ TIter \/ TSize \/ TClone \/ TCursor \/ TCwalk \/ TRoot \/ TLoad \/ TDrop \/ TAdopt
+TNext == TReset \/ TSkip \/ TTainted \/ TNew \/ TIns \/ TDel \/ TGet \/ TIter \/ TSize \/ TClone \/ TCursor \/ TCwalk \/ TRoot \/ TLoad \/ TDrop \/ TAdopt
 TSpec == TInit /\ [][TNext]_tvars
 
 Report == (l = Len(Trace) + 1) => PrintT(<<"REPORT", ToJson([viol |-> viol, stat |-> stat, consumed |-> l - 1])>>)
